@@ -14,7 +14,12 @@
        forall d sh, wf_doc d -> fits sh d ->
          deser_tape enc sh (flatten d) = spec_value enc sh d = deser_stream enc sh (tokens d)
        (stream: unless a header is captured, finding H)
-   PROVED here:
+   PROVED here, for every document of the CORE grammar, every shape, every decoder and float parameter:
+     * C02_stream_path_spec_partial (deser_stream (tokens d) = spec_value), hence
+       C02_paths_agree_partial (deser_tape (flatten d) = deser_stream (tokens d)); the stream model
+       is the token-list instance (see TextDeStream.v: that the tokens do not depend on buffer size /
+       read schedule is C07_stream_eq_slice; that the byte-level skip_container lands where the
+       token-level one does is only exercised by correspondence);
      * C02_tape_path_spec_partial: the tape half, for every document of the CORE grammar
        (core_fields: scalars quoted/unquoted, objects of `key op value` fields with any of the 8
        operators or none, arrays, arbitrary nesting; every shape: typed scalar hints with their
@@ -26,12 +31,12 @@
        object tails (the synthetic "remainder" key), arrays that turn into key-value lists, headers
        (`rgb {..}`: next_idx_header, the 2-element view, deserialize_any's look-ahead), parameters
        `[[p] ..]`, ghost `{}` objects, `any` on containers, Property<T> outside a field value
-       (serde-derive's own visitor), EnumAccess on arrays; the stream half and hence paths_agree
-       -- see the end of this file for what is pinned about them.
+       (serde-derive's own visitor), EnumAccess on arrays; the composition with the byte-level
+       lexers (C01_parse_render for flatten, C07 for tokens) is not restated here.
      * the two known deviations are reproduced by the models (witness theorems): H (the stream path
        has no headers) and M-tape-first-ne (`!=` as the first operator of a nested container). *)
 From JV Require Import Bytes Utf8 TextTok TextReader TextDoc SerdeShape TextDeCommon TextDeTape TextDeStream TextDeSpec.
-From JV.proofs Require Import TextDeTapeProofs.
+From JV.proofs Require Import TextDeTapeProofs TextDeStreamProofs.
 Open Scope N_scope.
 
 Theorem C02_tape_path_spec_partial : forall (decode : bytes -> cow) (parse_f64 : bytes -> outcome N) (F : fops) sh d,
@@ -48,6 +53,24 @@ Theorem C02_tape_root_any_fuel_partial : forall decode parse_f64 F sh d fuel,
   de_root decode parse_f64 F (flatten d) fuel sh 0 (length (flatten d)) = spec_value decode parse_f64 F sh d.
 Proof. exact tape_root_spec. Qed.
 Print Assumptions C02_tape_root_any_fuel_partial.
+
+Theorem C02_stream_path_spec_partial : forall (decode : bytes -> cow) (parse_f64 : bytes -> outcome N) (F : fops) sh d,
+  core_fields d = true -> fits decode parse_f64 F sh d ->
+  deser_stream decode parse_f64 F sh (tokens d) = spec_value decode parse_f64 F sh d.
+Proof. exact stream_path_spec_core. Qed.
+Print Assumptions C02_stream_path_spec_partial.
+
+Theorem C02_paths_agree_partial : forall (decode : bytes -> cow) (parse_f64 : bytes -> outcome N) (F : fops) sh d,
+  core_fields d = true -> fits decode parse_f64 F sh d ->
+  deser_tape decode parse_f64 F sh (flatten d) = deser_stream decode parse_f64 F sh (tokens d).
+Proof. exact paths_agree_core. Qed.
+Print Assumptions C02_paths_agree_partial.
+
+(* skip_container (token level) on a well-bracketed body lands exactly after the matching Close *)
+Theorem C02_stream_skip_lands_partial : forall fs rest d,
+  core_fields fs = true -> l_skip_depth (rtoks_fields fs ++ rest) d = l_skip_depth rest d.
+Proof. intros fs rest d H. exact (proj1 (proj2 (proj2 skip_bal)) fs H rest d). Qed.
+Print Assumptions C02_stream_skip_lands_partial.
 
 (* ------------------------------------------------------------------ non-vacuity and witnesses *)
 Definition dec0 (d : bytes) : cow := Borrowed d.
